@@ -127,11 +127,32 @@ func runC07(c *kernel.Ctx) {
 		held[i] = map[string]bool{}
 	}
 	steps := t.Range(15, 90)
+	burst := false
 	for s := 0; s < steps && !t.Exhausted(); s++ {
 		c.Step()
 		ci := t.Choose(len(w.clients))
 		cl := w.clients[ci]
 		switch k := t.Choose(20); {
+		case k < 1 && !burst: // once per run: more stored messages on one channel than any internal buffer holds
+			burst = true
+			key := w.keys["all"]
+			lv := genLevels(false)
+			n := t.Range(130, 170)
+			world.Advance(c, time.Duration(t.Range(1, 900))*time.Millisecond)
+			for i := 0; i < n; i++ {
+				w.seq++
+				payload := fmt.Sprintf("m%d", w.seq)
+				cl.Send(cl.Publish(key.Key+"/"+model.Join(lv)+"?ttl=600", []byte(payload), false, false))
+				now := time.Now()
+				w.store = append(w.store, &c07Msg{levels: lv, payload: payload, t: now.Unix(), expires: time.Unix(now.Unix(), 0).Add(600 * time.Second), seq: w.seq})
+				if i%20 == 19 {
+					world.Settle()
+				}
+			}
+			world.Settle()
+			cl.Recv()
+			c.Logf("c%d burst of %d on %s", ci, n, model.Join(lv))
+			c.Probe("burst-over-128-messages")
 		case k < 9: // publish
 			key := w.keys[keyNames[t.Choose(len(keyNames))]]
 			lv := genLevels(false)
